@@ -42,8 +42,12 @@ class ScriptSock:
         self.flags_seen = []
         self.terminal = None      # the first terminal event served
         self.asked_total = 0
-        if ssl_like:
+        if ssl_like is True:
             self.getpeercert = lambda: None
+        self.blocking = ssl_like == "blocking"       # third mode: an ordinary socket without a timeout
+
+    def gettimeout(self):
+        return None if self.blocking else 3.0
 
     def recv(self, n, flags=0):
         self.calls += 1
@@ -306,14 +310,16 @@ def units(tier):
     for size in small:
         for avail in sorted({size, size + 5, max(0, size - 1)}):
             for waitall in (True, False):
-                for ssl_like in (False, True):
-                    if ssl_like and not waitall:
+                for ssl_like in (False, True, "blocking"):
+                    if ssl_like is True and not waitall:
                         continue
                     out.append(("recv", (size, avail, waitall, ssl_like), 5 if quick else 7))
     for size in [60000, 60001, 120001]:
         for avail in (size, size + 9, size - 1):
             for waitall in (True, False):
                 out.append(("recv", (size, avail, waitall, False), 3 if quick else 4))
+                if waitall:
+                    out.append(("recv", (size, avail, waitall, "blocking"), 3 if quick else 4))
     for n in [0, 1, 2, 3, 7, 64]:
         out.append(("send", (n, True, "bytes"), 2))
         for ty in ("bytes", "bytearray", "memoryview"):
@@ -332,7 +338,7 @@ def run(ctx):
         total,
         rule="every script (up to the stated length, then faithful delivery) of per-call socket behaviours {deliver 1/2/half/n-1/all asked bytes, "
              "EINTR, EAGAIN/EWOULDBLOCK, EINPROGRESS, ECONNRESET, EBADF, socket.timeout, EOF} for receive_data over sizes {0,1,2,3,7,60000,60001,120001}, "
-             "streams that end early/exactly/late, MSG_WAITALL on/off and an ssl-like socket; and of {partial write 0/1/2/half/n-1/all, retryable, "
+             "streams that end early/exactly/late, MSG_WAITALL on/off, sockets in timeout mode and in blocking mode (gettimeout() None) and an ssl-like socket; and of {partial write 0/1/2/half/n-1/all, retryable, "
              "fatal, timeout} for send_data in blocking and timeout mode with bytes/bytearray/memoryview buffers; distinct = (operation, result class, "
              "terminal event) classes",
         extra={"units": len(us)})
